@@ -137,6 +137,14 @@ def run_pipeline(ctx, mods, case, pts):
     if not ok:
         return
     reduced, removed = res
+    # the simplify stage hands over positions of the original curve: anything else cannot even be indexed
+    rr = np.asarray(reduced)
+    okred = rr.ndim == 1 and len(rr) >= 1 and rr.dtype.kind in 'iu' and int(rr.min()) >= 0 and int(rr.max()) <= n - 1 \
+        and bool(np.all(np.diff(rr) > 0))
+    if not ctx.check(okred, 'final-mapping', 'stage:simplify:invalid-reduction',
+                     f'rdp.{s} handed over {rr.tolist()[:30]}: not a strictly increasing set of positions of a curve of {n} points',
+                     simplifier=s):
+        return
     pr = pts[reduced]
     det = case['detector']
     t2 = {'curvature': 3, 'dfdt': 3, 'menger': 4, 'lmethod': 4, 'kneedle': 3}[det]
